@@ -210,14 +210,30 @@ def extra(ctx):
         g = zg.Gen(rng, nasty=rng.choice([0.1, 0.3, 0.6]), full_ascii=True)
         texts.append(zg.render(rng, g.file(nrec=rng.choice([1, 3, 6, 12])), zg.STYLE_RICH))
 
+    # control characters as DATA: raw CR / CR LF inside quoted strings and after a backslash, whole files with
+    # CRLF line ends (outside quotes CR is white space, inside it is an octet of the string)
+    fixed = [
+        'a.example. 300 IN TXT "x\r\ny"\n',
+        'a.example. 300 IN TXT "x\ry" "z\r\n" w\n',
+        'a.example. 300 IN TXT x\\\r\nb.example. 300 IN A 1.2.3.4\n',
+        '$ORIGIN example.com.\r\n@ IN SOA ns h 1 2 3 4 60\r\nwww 300 IN TXT "a\r\nb"\r\n',
+        'a.example. 300 IN HINFO "\r\n"\n',
+    ]
+    texts = fixed + [t.replace("\n", "\r\n") if i % 3 == 0 else t for i, t in enumerate(texts)]
+
     def run(t):
         p = subprocess.run([ztoz], input=t.encode("utf-8"), stdout=subprocess.PIPE, stderr=subprocess.PIPE, timeout=60)
         return p.returncode, p.stdout.decode("utf-8", "replace")
+    # what the library's parser says about each input (ztoz must accept exactly what it accepts)
+    lib = core.run_sharded(core.impl_driver_path(DRIVER), ["zonefile P " + tok.text(t) for t in texts], ctx["run_dir"], "ztozlib")
     firsts = []
-    for t in texts:
+    for t, lp in zip(texts, lib):
         rc1, o1 = run(t)
         if rc1 != 0:
             firsts.append(None)
+            if lp.startswith("Ok:"):
+                fails.append(core.Failure("ztoz-rejects-valid", "ztoz rejects a file the zone parser accepts",
+                                          "zonefile RT %s ztoz" % tok.text(t)))
             continue
         rc2, o2 = run(o1)
         firsts.append(o1)
